@@ -91,3 +91,21 @@ Example C07_py_nonvacuous :
   shape_ty (norm ex_py_t) ex_py_v1 = true /\ has_ty (norm ex_py_t) ex_py_v1 = false /\
   PyContain.val_cong (norm ex_py_t) ex_py_v1 ex_py_v2 = true /\ PyRt.py_encode ex_py_t ex_py_v1 = PyRt.Ok (wire ex_py_t ex_py_v2).
 Proof. vm_compute. repeat split; reflexivity. Qed.
+
+(* ======================= optimization mode ======================= *)
+From BP Require OpMode OpModeLeaf.
+
+(* one field at an arbitrary offset, for EVERY object content u (not only in-range values):
+   the emitted -O encode statements add exactly u mod 2^width at the field's position and
+   change nothing else of the buffer (C byte-pointer, C value-based and Go statements) *)
+Theorem C07_opmode_contained : forall L lf ch M u i0 s,
+  OpModeLeaf.leaf_ok lf -> OpModeLeaf.pat_ok lf u ->
+  OpMode.mem_get M ch = Some (OpMode.mkcell (OpMode.leaf_cty lf) u) ->
+  0 <= i0 -> bytes_ok s -> 0 <= bufZ s < 2 ^ i0 ->
+  i0 + OpMode.leaf_bits lf <= 8 * Z.of_nat (length s) ->
+  exists s',
+    OpMode.run (OpMode.leaf_stmts L true (ch, lf) i0) (OpMode.mkst s M) = Some (OpMode.mkst s' M) /\
+    bytes_ok s' /\ length s' = length s /\
+    bufZ s' = bufZ s + 2 ^ i0 * (u mod 2 ^ OpMode.leaf_bits lf).
+Proof. exact OpModeLeaf.leaf_encode. Qed.
+Print Assumptions C07_opmode_contained.
